@@ -99,6 +99,19 @@ func genConcScenario(seed uint64, index int, tier string) *Scenario {
 		}
 		sc.Hays = append(sc.Hays, hex.EncodeToString(h))
 	}
+	if gr := r.fork(12); gr.p(1, 40) && len(sc.Hays) > 0 {
+		// one run in forty: the first haystack grown to 33..70 KB by repetition - size
+		// thresholds (pooled buffers for large inputs, windowed searches) are only crossed
+		// there; scenarios whose reference pass is too expensive are skipped and counted
+		if base, err := hex.DecodeString(sc.Hays[0]); err == nil && len(base) > 0 {
+			want := gr.between(33000, 70000)
+			big := make([]byte, 0, want+len(base))
+			for len(big) < want {
+				big = append(big, base...)
+			}
+			sc.Hays[0] = hex.EncodeToString(big)
+		}
+	}
 	or := r.fork(4)
 	maxW := 4
 	if tier == "thorough" && or.p(1, 6) {
